@@ -1745,6 +1745,8 @@ impl<'de, 'e> de::Deserializer<'de> for YamlDeserializer<'de, 'e> {
                 tag,
                 ..
             }) if tag != &SfTag::String
+                // (an application tag makes it a value: `!Variant` is that variant of an enum)
+                && tag != &SfTag::Other
                 && !matches!(style, ScalarStyle::Literal | ScalarStyle::Folded)
                 && scalar_is_nullish_for_option(s, style) =>
             {
